@@ -190,12 +190,18 @@ fn reference_binary(op: &ir::IntrinsicOp, a: Flat, c: Flat) -> Expect {
             match op {
                 Op::Add => Expect::Is(wrap_i(x + y)),
                 Op::Subtract => Expect::Is(wrap_i(x - y)),
-                Op::Multiply => Expect::Is(wrap_i(x * y)),
+                // multiplication, division and remainder are stated with the 32-bit operations themselves (wrapping_mul is
+                // by definition two's-complement wrapping multiplication): a 64-bit restatement makes the SAT problem an
+                // equivalence check of two different multiplier / divider circuits, which CBMC does not finish
+                Op::Multiply => Expect::Is(Flat::i(a.as_i32().wrapping_mul(c.as_i32()))),
                 Op::Divide if y == 0 => Expect::NotConst,
                 // INT_MIN / -1 wraps to INT_MIN in two's complement; reporting it as not constant is tolerated
-                Op::Divide => Expect::IsOrNotConst(wrap_i(x / y)),
+                Op::Divide if y == -1 => Expect::IsOrNotConst(wrap_i(-x)),
+                Op::Divide => Expect::Is(Flat::i(a.as_i32() / c.as_i32())),
                 Op::Modulus if y == 0 => Expect::NotConst,
-                Op::Modulus => Expect::Is(wrap_i(x % y)),
+                // x % -1 is 0 for every x (also for INT_MIN, where the hardware instruction would trap)
+                Op::Modulus if y == -1 => Expect::Is(Flat::i(0)),
+                Op::Modulus => Expect::Is(Flat::i(a.as_i32() % c.as_i32())),
                 // the shift amount is taken modulo the width (HLSL masks it to 5 bits)
                 Op::LeftShift => Expect::Is(wrap_i(x << (y & 31))),
                 Op::RightShift => Expect::Is(wrap_i(x >> (y & 31))),
@@ -210,11 +216,11 @@ fn reference_binary(op: &ir::IntrinsicOp, a: Flat, c: Flat) -> Expect {
             match op {
                 Op::Add => Expect::Is(wrap_u(x + y)),
                 Op::Subtract => Expect::Is(wrap_u((1u64 << 32) + x - y)),
-                Op::Multiply => Expect::Is(wrap_u(x * y)),
+                Op::Multiply => Expect::Is(Flat::u(a.as_u32().wrapping_mul(c.as_u32()))),
                 Op::Divide if y == 0 => Expect::NotConst,
-                Op::Divide => Expect::Is(wrap_u(x / y)),
+                Op::Divide => Expect::Is(Flat::u(a.as_u32() / c.as_u32())),
                 Op::Modulus if y == 0 => Expect::NotConst,
-                Op::Modulus => Expect::Is(wrap_u(x % y)),
+                Op::Modulus => Expect::Is(Flat::u(a.as_u32() % c.as_u32())),
                 Op::LeftShift => Expect::Is(wrap_u(x << (y & 31))),
                 Op::RightShift => Expect::Is(wrap_u(x >> (y & 31))),
                 Op::BitwiseAnd => Expect::Is(wrap_u(x & y)),
@@ -351,6 +357,7 @@ const INTS: [u8; 3] = [1, 2, 3];
 // bools although it holds natively for all four combinations), so bool operands are left out of < <= > >= here;
 // == and != on bool are covered.
 const NO_BOOL: [u8; 9] = [1, 2, 3, 4, 5, 6, 7, 8, 9];
+const NO_INTLIT: [u8; 9] = [0, 2, 3, 4, 5, 6, 7, 8, 9];
 
 macro_rules! unary {
     ($name:ident, $op:ident, $kinds:expr) => {
@@ -383,9 +390,12 @@ unary!(c13_op_logical_not, LogicalNot, ALL);
 unary!(c13_op_bitwise_not, BitwiseNot, INTS);
 binary!(c13_op_add, Add, false, ALL);
 binary!(c13_op_subtract, Subtract, false, ALL);
-binary!(c13_op_multiply, Multiply, false, ALL);
-binary!(c13_op_divide, Divide, false, ALL);
-binary!(c13_op_modulus, Modulus, false, ALL);
+// 128-bit multiplication / division of two symbolic untyped literals is beyond CBMC (two 128-bit multiplier or divider
+// circuits to be proved equal): these three operators are proved for every operand kind except the untyped
+// literal, and for untyped literals only BOUNDED to operands of magnitude below 2^20 (harnesses *_intlit_bounded)
+binary!(c13_op_multiply, Multiply, false, NO_INTLIT);
+binary!(c13_op_divide, Divide, false, NO_INTLIT);
+binary!(c13_op_modulus, Modulus, false, NO_INTLIT);
 binary!(c13_op_left_shift, LeftShift, false, ALL);
 binary!(c13_op_right_shift, RightShift, false, ALL);
 binary!(c13_op_bitwise_and, BitwiseAnd, false, ALL);
@@ -417,6 +427,33 @@ fn c13_op_nonconstant_argument_propagates() {
     assert!(r.is_err());
     kani::cover!(true);
 }
+
+fn intlit_bounded_harness(op: ir::IntrinsicOp) {
+    let x: i128 = kani::any();
+    let y: i128 = kani::any();
+    kani::assume(-(1 << 20) < x && x < (1 << 20) && -(1 << 20) < y && y < (1 << 20));
+    let args = leak([
+        ir::Expression::Literal(ir::Constant::IntLiteral(x)),
+        ir::Expression::Literal(ir::Constant::IntLiteral(y)),
+    ]);
+    let m = leak_module();
+    let r = leak(evaluate_operator(&op, args, m));
+    check(r, reference_binary(&op, Flat::lit(x), Flat::lit(y)), None, false);
+    kani::cover!(true);
+}
+macro_rules! intlit_bounded {
+    ($name:ident, $op:ident) => {
+        #[kani::proof]
+        #[kani::unwind(3)]
+        #[kani::stub(evaluate_constexpr, stub_eval)]
+        fn $name() {
+            intlit_bounded_harness(ir::IntrinsicOp::$op);
+        }
+    };
+}
+intlit_bounded!(c13_op_multiply_intlit_bounded, Multiply);
+intlit_bounded!(c13_op_divide_intlit_bounded, Divide);
+intlit_bounded!(c13_op_modulus_intlit_bounded, Modulus);
 
 // ================================ casts ==========================================================
 // evaluate_cast(target type, value): "HLSL conversion rules for casts between bool, integers, floats and enums".
